@@ -141,7 +141,9 @@ func (p *contractPayment) SubscribeBalance(ctx context.Context, handler func(acc
 			case balanceEvent := <-sink:
 				account := store.Account(balanceEvent.Account.Hex())
 				logger.Printf("SubscribeBalance: Processing event for account: %s", account)
-				go handler(account, balanceEvent.Balance)
+				// In order, a later event must not be overtaken by an
+				// earlier one.
+				handler(account, balanceEvent.Balance)
 			case err := <-sub.Err():
 				return err
 			case <-ctx.Done():
